@@ -76,6 +76,15 @@ AREAS = {
                 '(empty, NUL only, no terminator, CR/LF/TAB, non-UTF-8 / non-ASCII bytes, 65535 bytes), raw data 0-5 bytes; both byte orders via '
                 'payload_from_args, host order via the serde serializer; a third of the cases truncated at a random byte, a sixth with one corrupted byte',
     },
+    'rlc': {
+        'shrink_sep': ';', 'needs_bin': True,
+        'rule': 'the lifecycle table a client of the adlt remote binary ends up with: the messages are written to a file, the real binary is started and '
+                'told to open it, every Lifecycles update is applied (keyed by id, an entry with 0 messages removes the id) until the whole file is '
+                'announced and the server is quiet; the table, listed by the start time sent (the order the server uses), against the final table of '
+                'the library for the same messages: half of the cases resume chains whose start estimates cross (2-4 lifecycles, later messages move '
+                'the start back by 10-50 s), half random streams of the lc generator; one corpus case with 1.5 million messages (more than the '
+                'channels between the lifecycle thread and the connection hold) between the confirmation of a lifecycle and its merge',
+    },
     'lc8': {
         'shrink_sep': ';',
         'rule': 'clean traces with ground truth: 1-3 (thorough 1-4) ECUs interleaved arbitrarily, 1-4 (1-6) boots each of 1/2/3/5/8 messages in arbitrary '
@@ -273,11 +282,11 @@ PROPS = {
         'n_quick': 4000, 'n_thorough': 120000, 'project': _lc_project,
     },
     'C07': {
-        'id': 'C07', 'area': 'lc',
+        'id': 'C07', 'area': ['lc', 'rlc'],
         'theorems': ['Props.C07_listing_perm', 'Props.C07_listing_sorted', 'Props.C07_listing_noresume',
                      'Props.C07_listing_resume', 'Props.C07_listed_once', 'Props.C07_listed_are_live',
                      'Props.C07_live_are_listed', 'Props.C07_counts_sum', 'Props.C07_count_exact',
-                     'Props.C07_delivered_listed', 'Props.C07_spec'],
-        'n_quick': 4000, 'n_thorough': 120000, 'project': _lc_project,
+                     'Props.C07_delivered_listed', 'Props.C07_spec', 'Props.C07_remote_key_ordered'],
+        'n_quick': [4000, 60], 'n_thorough': [120000, 2500], 'project': _lc_project, 'env': {'VERIF_JOBS': '16'},
     },
 }
